@@ -170,6 +170,11 @@ type Feature struct {
 	LookupListIndices   []uint16 `arrayCount:"FirstUint16"` // [lookupIndexCount]	Array of indices into the LookupList — zero-based (first lookup is LookupListIndex = 0)
 }
 
+// The generated parseLookupList has a manual addition, to be kept (or moved to the
+// generator) when regenerating: every Lookup copies its subtable offsets, so 65535
+// lookups sharing or overlapping the same bytes would allocate 65535 x 128 KB.
+// As in [ScriptList.parseScripts], a Lookup table referenced several times is parsed once
+// and the header sizes of the distinct tables are checked against the length of the data.
 type lookupList struct {
 	Lookups []Lookup `arrayCount:"FirstUint16" offsetsArray:"Offset16"` // Array of offsets to Lookup tables, from beginning of LookupList — zero based (first lookup is Lookup index = 0)
 }
